@@ -4,7 +4,7 @@ SPEC = {
     "id": "C11",
     "level": "other",
     "sidecars": ["trie_dict", "lru_trie"],
-    "functions": [T + "__setitem__", T + "longest_matching_prefix_value", T + "__len__", T + "__init__",
+    "functions": [T + "__setitem__", T + "longest_matching_prefix_value", T + "__len__", T + "__init__", T + "values",
                   L + "clean_trailing_path", L + "ensure_lru_stems"] + [L + "LRUTrie." + m for m in
                   ("__init__", "__len__", "set", "__setitem__", "match", "set_lru", "match_lru", "__iter__")],
     "bounded": ["bcheck.c11"],
